@@ -268,6 +268,33 @@ def nitool_round(rep, r, tier, tmp):
             want = '' if exp is None else str(exp) + '\n'
             if out != want:
                 rep.failure('nitool lookup %s at %s prints %r, get_meta returns %r' % (k, idx, out, exp), dict(C, tag='nitool:lookup'))
+        # ---- ... also when the stored value is falsy (0, 0.0, '', []): only an absent key prints nothing
+        falsy = [0, 0.0, '', [], False]
+        fw = NiftiWrapper.from_filename(src)
+        fcl = r.choice([c for c in fw.meta_ext.get_valid_classes()])
+        fmult = fw.meta_ext.get_multiplicity(fcl)
+        fv = r.choice(falsy)
+        if fmult > 1:
+            fvals = [r.choice(falsy) for _ in range(fmult)]
+            fw.meta_ext.get_class_dict(fcl)['FalsyKey'] = fvals
+        elif fcl == ('global', 'const'):
+            fw.meta_ext.get_class_dict(fcl)['FalsyKey'] = fv
+        else:
+            fw.meta_ext.get_class_dict(fcl)['FalsyKey'] = [fv]
+        fw.meta_ext.get_class_dict(('global', 'const'))['FalsyConst'] = fv
+        fsrc = os.path.join(d, 'falsy.nii.gz')
+        fw.to_filename(fsrc)
+        for k in ('FalsyKey', 'FalsyConst', 'NoSuchKey'):
+            idx = tuple(r.randrange(x) for x in case['shape'])
+            rc, out = nitool(['lookup', k, fsrc, '-i', ','.join(map(str, idx))])
+            with contextlib.redirect_stdout(io.StringIO()):
+                exp = NiftiWrapper.from_filename(fsrc).get_meta(k, idx)
+            want = '' if exp is None else str(exp) + '\n'
+            rep.evaluations += 1
+            rep.count('cli/nitool-lookup-falsy')
+            if out != want or (k == 'NoSuchKey' and out != '') or (k != 'NoSuchKey' and out == ''):
+                rep.failure('nitool lookup %s at %s prints %r, get_meta returns %r' % (k, idx, out, exp),
+                            dict(C, tag='nitool:lookup', key=k, falsy_class=list(fcl), index=list(idx)))
         # ---- split / merge write what the API returns
         dim = r.randrange(len(case['shape']))
         sd = os.path.join(d, 'split'); os.makedirs(sd)
